@@ -9,7 +9,7 @@ for out in /tmp/mut/out_C??$suf; do
 import json,re,sys
 m=json.load(open('$out/meta.json')); s=re.sub(r'[^a-z0-9]+','-',m.get('summary','x').lower()).strip('-')
 print('-'.join(s.split('-')[:6])[:48])")
-  name="$pid-r3-$slug"
+  name="$pid-r${ROUND:-3}-$slug"
   tools/seed_run.sh "$tag" "$pid" "$name" 2>&1 | grep "RECORDED\|PATCH\|tier="
   touch "$out/.processed"
 done
